@@ -106,6 +106,7 @@ class Acct(db.Entity):
     rate = Required(float, default=0.0)
     hits = Required(int, default=0, optimistic=False)
     tick = Required(int, default=0, volatile=True)
+    cap = Optional(int)          # nullable, NULL at the start
     items = Set('Item')
     # hybrid method / property inlined into queries; they read globals of this namespace (C05)
     def rich(self):
@@ -158,7 +159,7 @@ def dump_bank(path):
     con = simdb.raw_connect(path)
     try:
         out = {}
-        out['Acct'] = con.execute('select id, name, bal, note, rate, hits, tick from Acct order by id').fetchall()
+        out['Acct'] = con.execute('select id, name, bal, note, rate, hits, tick, cap from Acct order by id').fetchall()
         out['Item'] = con.execute('select id, acct, tag, qty from Item order by id').fetchall()
         out['Tag'] = con.execute('select id, name from Tag order by id').fetchall()
         out['Item_Tag'] = con.execute('select * from Item_Tag order by 1, 2').fetchall()
